@@ -3,6 +3,7 @@ import MdwModel.Driver.C09
 import MdwModel.Driver.C13
 import MdwModel.Driver.Stack
 import MdwModel.Driver.C15
+import MdwModel.Driver.C01
 import MdwModel.Model.Records
 import Std.Data.HashMap
 open Mdw.Drv
@@ -16,7 +17,7 @@ structure Stats where
   shapes : Std.HashMap String Unit := {}
   cov : Std.HashMap String Nat := {}
 
-def dispatch (prop : String) (kv : List (String × String)) : Res :=
+def dispatchPure (prop : String) (kv : List (String × String)) : Res :=
   match prop with
   | "C16" => C16.run kv
   | "C09" => C09.run kv
@@ -36,6 +37,11 @@ def dispatch (prop : String) (kv : List (String × String)) : Res :=
     | none => .bad "sizes"
   | _ => .bad s!"unknown property {prop}"
 
+def dispatch (prop : String) (kv : List (String × String)) : IO Res := do
+  match prop with
+  | "C01" => C01.run kv
+  | _ => return dispatchPure prop kv
+
 partial def loop (h : IO.FS.Stream) (stats : Std.HashMap String Stats) : IO (Std.HashMap String Stats) := do
   let line ← h.getLine
   if line.isEmpty then return stats
@@ -44,7 +50,7 @@ partial def loop (h : IO.FS.Stream) (stats : Std.HashMap String Stats) : IO (Std
   let toks := line.splitOn " "
   match toks with
   | prop :: id :: rest =>
-    let r := dispatch prop (kvs rest)
+    let r ← dispatch prop (kvs rest)
     IO.println s!"{prop} {id} {r.verdict}"
     let s := stats.getD prop {}
     let s := { s with cases := s.cases + 1 }
